@@ -65,7 +65,7 @@ class Model:
         uses_in = any(isinstance(n, ast.Compare) and isinstance(n.ops[0], (ast.In, ast.NotIn)) for p in paths
                       for g, _ in p.guards for n in ast.walk(g))
         uses_truth = any(isinstance(g, ast.Name) for p in paths for g, _ in p.guards)
-        obj_ = A.params(fn.node)[0]
+        obj_ = B.obj_param(fn.node)
         called = {id(c.func) for p in paths for g, _ in p.guards for c in ast.walk(g) if isinstance(c, ast.Call)}
         attr_names = sorted({n.attr for p in paths for g, _ in p.guards for n in ast.walk(g)
                              if isinstance(n, ast.Attribute) and isinstance(n.value, ast.Name) and n.value.id == obj_
@@ -104,7 +104,7 @@ def chosen_paths(ctx, m, t, fn, paths, rep=None, rule=None):
     """(valuation, path) pairs to judge for the dumper of type t: one per sample valuation when the guards can be evaluated;
     when a guard depends on the VALUE in a way the evaluator does not model (`F4.unpack(F4.pack(obj))[0] == obj`), every path
     is judged on its own - a type with one published wire form must emit it on all of them"""
-    obj = A.params(fn.node)[0]
+    obj = B.obj_param(fn.node)
     out = []
     try:
         vals = list(m.samples(t))
@@ -169,7 +169,7 @@ def expected_term(model, t, path, val):
         return None, ["the path does not start with a one-byte tag"]
     rest = items[1:]
     kinds = [it[0] for it in rest]
-    obj = A.params(model.dumpers[t][0].node)[0]
+    obj = B.obj_param(model.dumpers[t][0].node)
     if t is str:
         # TAG + <bytes layout of obj.encode(codec)> ; the reader decodes one nested value
         tb, payload, _ = bytes_term(rest[1:] if rest and rest[0][0] == "bytes" else rest, val, probs=probs)
@@ -216,7 +216,22 @@ def expected_term(model, t, path, val):
                 probs.append("the packed length `%s` is not the length of the payload `%s` that follows"
                              % (", ".join(A.src(x) for x in la), A.src(payload)))
         if t is int:
-            if A.src(payload) not in ("BYTES_LITERAL(str(%s))" % obj, "str(%s).encode('ascii')" % obj):
+            okdec = None
+            try:
+                from .. import miniinterp as MId
+                from . import common as K
+                okdec = True
+                for v_ in (10 ** 30 + 7, -(10 ** 260), 12345678901234567890, -987654321098765432109876543210):
+                    ex_ = {"__globals__": {obj: v_}}
+                    ex_["__global_lookup__"] = K.module_function_lookup(model.ctx, model.mod, ex_)
+                    got_ = MId.eval_expr(payload, ex_)
+                    if not (isinstance(got_, (bytes, bytearray)) and bytes(got_) == str(v_).encode("ascii")):
+                        okdec = False
+            except (MId.Raised, AnalysisError, Exception):
+                okdec = None
+            if okdec is None:
+                okdec = A.src(payload) in ("BYTES_LITERAL(str(%s))" % obj, "str(%s).encode('ascii')" % obj)
+            if not okdec:
                 probs.append("integer payload `%s` is not the decimal text of the value" % A.src(payload))
             return ("ctor", "int", tb), probs
         if t is bytes:
@@ -643,7 +658,7 @@ def run(ctx, rep, model=None):
             first = p.items[0] if p.items else None
             if first and first[0] == "imm":
                 try:
-                    byte_ = B.imm_byte(ctx, first, val, A.params(fn.node)[0])
+                    byte_ = B.imm_byte(ctx, first, val, B.obj_param(fn.node))
                     okimm = isinstance(byte_, bytes) and m.imm_loader.get(byte_) == val.get("value") and \
                         type(m.imm_loader.get(byte_)) is int
                     why_ = "int %s is written as %r, which the reader decodes as %r" % (val.get("value"), byte_, m.imm_loader.get(byte_))
